@@ -578,6 +578,12 @@ class Scheduler:
             except Exception:
                 logger.exception("Got an error with listener %s", listener)
 
+        # A job that has already been completed is done, whatever happened to
+        # its dependencies since then (checked first, so that a failed
+        # dependency does not flag it as failed before it is flagged as done)
+        if job.donepath.exists():
+            job.state = JobState.DONE
+
         # Add dependencies, and add to blocking resources
         if job.dependencies:
             job.unsatisfied = len(job.dependencies)
@@ -587,12 +593,9 @@ class Scheduler:
                 dependency.loop = self.loop
                 dependency.origin.dependents.add(dependency)
                 dependency.check()
-        else:
+        elif not job.state.finished():
             job._readyEvent.set()
             job.state = JobState.READY
-
-        if job.donepath.exists():
-            job.state = JobState.DONE
 
         # Check if we have a running process
         process = await job.aio_process()
